@@ -317,7 +317,7 @@ class AutorefMachine(Machine):
             env.settle()
             self._invariant(st)
 
-    def _invariant(self, st):
+    def _invariant(self, st, shutdown=True):
         U = self.U
         ext = {}
         for f in st.fns:
@@ -328,6 +328,8 @@ class AutorefMachine(Machine):
             if den(f) != mask:
                 raise Violation('a live Function changed denotation',
                                 got=U.fmt(den(f)), want=U.fmt(mask))
+        if not shutdown:
+            return
         # drop everything, in several orders, on copies: shutdown check must pass
         n = len(st.fns)
         orders = [list(range(n)), list(reversed(range(n)))]
